@@ -252,12 +252,16 @@ func (msg *MessageAuth) FromBytes(src []byte) error {
 		return ErrNotEnoughSourceBytes
 	}
 
-	p, q := 0, l/(MessageChunkBytesMax+2)+1
+	// number of chunks: every chunk but the last one occupies MessageChunkBytesMax+2 bytes
+	p, q := 0, (l+MessageChunkBytesMax+1)/(MessageChunkBytesMax+2)
 	chunks := make([]*MessageChunk, 0, q)
 	var chunk *MessageChunk
 	for i := 0; i < q; i++ {
 		chunk = &MessageChunk{}
 		p = i * (MessageChunkBytesMax + 2)
+		if l < p+2 {
+			return ErrIncorrectSourceBytes
+		}
 
 		chunk.Length = src[p]
 		if (q > 1 && i < q-1 && int(chunk.Length) != MessageChunkBytesMax) ||
@@ -296,6 +300,10 @@ func (msg *MessageAuth) FromChunks(chunks []*MessageChunk) error {
 	var foundDelimiter bool
 	for i, b := range src {
 		if b == MessageChunkBytesDelimiter {
+			if i+1 > len(src)-1 {
+				// the delimiter is the last byte: no public key and parity follow
+				return ErrIncorrectSourceBytes
+			}
 			msg.Username = string(src[:i])
 			msg.PublicKeyBytes = src[i+1 : len(src)-1]
 			msg.PublicKeyParity = src[len(src)-1]
